@@ -124,6 +124,17 @@ def run(ctx):
         ln = len(src.rstrip('\n').split('\n'))
         qs = [[m, ln, 0] for m in ('infer', 'goto', 'complete', 'help')] + [['infer', 0, 0]]
         sources.append(('idiom:' + k, src, None, qs, None))
+    # queries whose result is a value SET with several elements (order must not depend on object addresses)
+    multi = {
+        'multi:ospath_sig': ("from os.path import abspath, join\nabspath(\njoin(\n", [['get_signatures', 2, 8], ['get_signatures', 3, 5], ['infer', 2, 3], ['goto', 2, 3]]),
+        'multi:ospath_mod': ("import os\nos.path\nos.path.join\n", [['infer', 2, 7], ['help', 2, 7], ['infer', 3, 12], ['get_signatures', 3, 12], ['complete', 2, 7]]),
+        'multi:two_defs': ("import random\nif random.random():\n    def f(a):\n        return 1\nelse:\n    def f(b, c):\n        return ''\nx = f(\nx\nf\n",
+                           [['get_signatures', 8, 6], ['infer', 9, 1], ['infer', 10, 1], ['goto', 10, 1], ['get_references', 10, 1], ['help', 10, 1]]),
+        'multi:two_classes': ("import random\nclass A:\n    def m(self, p): pass\nclass B:\n    def m(self, q, r): pass\no = A() if random.random() else B()\no.m(\no.\n",
+                              [['get_signatures', 7, 4], ['complete', 8, 2], ['infer', 6, 0]]),
+    }
+    for k, (src, qs) in multi.items():
+        sources.append((k, src, None, qs, None))
     for f in jutil.corpus_files(limit=10 if quick else 40, rng=rng):
         with open(f, encoding='utf-8') as fh:
             src = fh.read()
@@ -137,6 +148,8 @@ def run(ctx):
     nlong = 200
     long_src = ''.join('w%d = %d\n' % (i, i) for i in range(nlong))
     sources.append(('budget', long_src, None, [['infer', i + 1, 0] for i in range(nlong)], None))
+    if os.environ.get('C16_ONLY_BUDGET'):
+        sources = sources[-1:]
     fresh_jobs, same_jobs, hist_index = [], [], []
     for si, (name, src, path, qs, _) in enumerate(sources):
         fresh_jobs.append({'src': src, 'path': path, 'mode': 'fresh', 'queries': qs})
